@@ -92,6 +92,15 @@ func (x *Executor) execInstr(fr *Frame, in ssa.Instruction, st *State, reach str
 
 	case *ssa.BinOp:
 		xv, yv := x.value(fr, t.X), x.value(fr, t.Y)
+		if t.Op == token.OR && isInteger(t.Type()) {
+			// x | y with provably disjoint bit ranges is x + y (exact)
+			lo1, hi1, ok1 := bitRange(t.X, 0)
+			lo2, hi2, ok2 := bitRange(t.Y, 0)
+			if ok1 && ok2 && (hi1 <= lo2 || hi2 <= lo1) {
+				fr.vals[t] = Val{T: u.define("ordisj", "Int", fmt.Sprintf("(+ %s %s)", xv.T, yv.T)), Ty: t.Type()}
+				return
+			}
+		}
 		fr.vals[t] = x.binop(fr, t.Op, xv, yv, t.Type(), reach)
 
 	case *ssa.Field:
@@ -100,7 +109,7 @@ func (x *Executor) execInstr(fr *Frame, in ssa.Instruction, st *State, reach str
 		term := u.define("fld", u.sortOf(t.Type()), fmt.Sprintf("(%s %s)", u.fieldAcc(t.X.Type(), t.Field), xv.T))
 		fr.vals[t] = Val{T: term, Ty: t.Type()}
 		if wf := u.wfValue(term, t.Type(), 0); wf != "true" {
-			u.assume(wf)
+			u.assume(fmt.Sprintf("(=> %s %s)", reach, wf))
 		}
 
 	case *ssa.Index:
@@ -111,7 +120,7 @@ func (x *Executor) execInstr(fr *Frame, in ssa.Instruction, st *State, reach str
 			term := u.define("idx", u.sortOf(t.Type()), fmt.Sprintf("(select %s %s)", xv.T, iv.T))
 			fr.vals[t] = Val{T: term, Ty: t.Type()}
 			if wf := u.wfValue(term, t.Type(), 0); wf != "true" {
-				u.assume(wf)
+				u.assume(fmt.Sprintf("(=> %s %s)", reach, wf))
 			}
 		case *types.Basic: // string
 			x.check(fr, "index", fmt.Sprintf("(and (<= 0 %s) (< %s (strlen %s)))", iv.T, iv.T, xv.T), reach, "string index in range")
@@ -260,10 +269,12 @@ func (x *Executor) execInstr(fr *Frame, in ssa.Instruction, st *State, reach str
 			p := u.define("mp", "Bool", fmt.Sprintf("(and (not (= %s 0)) (select (select %s %s) %s))", xv.T, x.heapGet(st, pres), xv.T, k))
 			vt := u.define("mv", u.sortOf(mt.Elem()), fmt.Sprintf("(ite %s (select (select %s %s) %s) %s)", p, x.heapGet(st, val), xv.T, k, u.zeroOf(mt.Elem())))
 			if wf := u.wfValue(vt, mt.Elem(), 0); wf != "true" {
-				u.assume(wf)
+				u.assume(fmt.Sprintf("(=> %s %s)", reach, wf))
 			}
 			v := Val{T: vt, Ty: mt.Elem()}
+			x.reachGuard = reach
 			x.assumeAllocated(st, v)
+			x.reachGuard = ""
 			if t.CommaOk {
 				fr.vals[t] = Val{Ty: t.Type(), Tup: []Val{v, {T: p, Ty: types.Typ[types.Bool]}}}
 			} else {
@@ -463,6 +474,10 @@ func (x *Executor) binop(fr *Frame, op token.Token, a, b Val, resTy types.Type, 
 			}
 		}
 		p := fmt.Sprintf("(pow2 %s)", b.T)
+		if k, okk := new(big.Int).SetString(b.T, 10); okk && k.Sign() >= 0 && k.IsInt64() && k.Int64() <= 256 {
+			// constant shift count: a literal power of two keeps the arithmetic linear
+			p = new(big.Int).Lsh(big.NewInt(1), uint(k.Int64())).String()
+		}
 		if op == token.SHL {
 			raw := fmt.Sprintf("(ite (>= %s %d) 0 (* %s %s))", b.T, bits, a.T, p)
 			// shifts discard high bits: always wrap (overflow obligations do not apply to shifts)
@@ -497,6 +512,117 @@ func (x *Executor) binop(fr *Frame, op token.Token, a, b Val, resTy types.Type, 
 	}
 	u.unsupported("binary op " + op.String())
 	return Val{T: u.freshConst("bin", u.sortOf(resTy)), Ty: resTy}
+}
+
+// bitRange: the set bits of v lie within [lo, hi) (syntactic, from conversions, constants and
+// constant shifts).
+func bitRange(v ssa.Value, depth int) (lo, hi int, ok bool) {
+	if depth > 12 {
+		return 0, 0, false
+	}
+	switch t := v.(type) {
+	case *ssa.Const:
+		if t.Value == nil {
+			return 0, 0, false
+		}
+		n, okc := new(big.Int).SetString(t.Value.ExactString(), 10)
+		if !okc || n.Sign() < 0 {
+			return 0, 0, false
+		}
+		if n.Sign() == 0 {
+			return 0, 0, true
+		}
+		return int(n.TrailingZeroBits()), n.BitLen(), true
+	case *ssa.Convert:
+		if l, h, okb := intBounds(t.X.Type()); okb && l.Sign() == 0 {
+			w := h.BitLen()
+			if il, ih, ok2 := bitRange(t.X, depth+1); ok2 {
+				if ih < w {
+					w = ih
+				}
+				if tl, th, okt := intBounds(t.Type()); okt && tl.Sign() == 0 && th.BitLen() < w {
+					return il, th.BitLen(), true
+				}
+				return il, w, true
+			}
+			if tl, th, okt := intBounds(t.Type()); okt && tl.Sign() == 0 {
+				if th.BitLen() < w {
+					w = th.BitLen()
+				}
+				return 0, w, true
+			}
+		}
+		if tl, th, okt := intBounds(t.Type()); okt && tl.Sign() == 0 && th.BitLen() < 64 {
+			return 0, th.BitLen(), true
+		}
+	case *ssa.BinOp:
+		switch t.Op {
+		case token.SHL:
+			if c, okc := t.Y.(*ssa.Const); okc && c.Value != nil {
+				k, _ := new(big.Int).SetString(c.Value.ExactString(), 10)
+				if l, h, okx := bitRange(t.X, depth+1); okx && k != nil && k.IsInt64() {
+					_, th, _ := intBounds(t.Type())
+					w := 64
+					if th != nil {
+						w = th.BitLen()
+					}
+					nh := h + int(k.Int64())
+					if nh > w {
+						nh = w
+					}
+					return l + int(k.Int64()), nh, true
+				}
+			}
+		case token.SHR:
+			if c, okc := t.Y.(*ssa.Const); okc && c.Value != nil {
+				k, _ := new(big.Int).SetString(c.Value.ExactString(), 10)
+				if l, h, okx := bitRange(t.X, depth+1); okx && k != nil && k.IsInt64() {
+					nl, nh := l-int(k.Int64()), h-int(k.Int64())
+					if nl < 0 {
+						nl = 0
+					}
+					if nh < 0 {
+						nh = 0
+					}
+					return nl, nh, true
+				}
+			}
+		case token.OR, token.XOR, token.ADD:
+			l1, h1, ok1 := bitRange(t.X, depth+1)
+			l2, h2, ok2 := bitRange(t.Y, depth+1)
+			if ok1 && ok2 && (t.Op != token.ADD || h1 <= l2 || h2 <= l1) {
+				if l2 < l1 {
+					l1 = l2
+				}
+				if h2 > h1 {
+					h1 = h2
+				}
+				return l1, h1, true
+			}
+		case token.AND:
+			if l, h, okx := bitRange(t.Y, depth+1); okx {
+				if _, isC := t.Y.(*ssa.Const); isC {
+					return l, h, true
+				}
+			}
+			if l, h, okx := bitRange(t.X, depth+1); okx {
+				if _, isC := t.X.(*ssa.Const); isC {
+					return l, h, true
+				}
+			}
+		}
+	case *ssa.UnOp:
+		// loads of unsigned narrow types
+		if t.Op == token.MUL {
+			if tl, th, okt := intBounds(t.Type()); okt && tl.Sign() == 0 && th.BitLen() < 64 {
+				return 0, th.BitLen(), true
+			}
+		}
+	}
+	if tl, th, okt := intBounds(v.Type()); okt && tl.Sign() == 0 && th.BitLen() < 64 {
+		return 0, th.BitLen(), true
+	}
+	return 0, 0, false
 }
 
 func unsignedOrNonneg(t types.Type) bool {
